@@ -171,6 +171,41 @@ def restore_sequences(ctx):
                     out.append((key, f"restore with checkpoint_frequency=0: the new directory was created and holds {nd['steps']}", inp))
                 if want_new is not None and (not nd or nd["steps"] != want_new):
                     out.append((key, f"after restore({ov}) + solve({k}) the new directory holds {nd and nd['steps']}, expected {want_new}", inp))
+    # ONE process, two solver objects on the same directory with different retention: the run, then (a) restore() in place with
+    # another max_checkpoints, (b) a hand-built solver with another max_checkpoints that loads and continues
+    for pi, solver in ((1, "vi"),) if ctx.tier == "quick" else ((1, "vi"), (0, "vi"), (1, "pvi"), (2, "rvi"), (1, "savi")):
+        for name, f, m1, k1, m2, k2, route in (("same-process-restore", 2, 1, 5, 3, 6, "restore"), ("same-process-load", 3, 2, 7, 4, 6, "load")):
+            n += 1
+            base = ctx.scratch / f"c12s_{pi}_{solver}_{name}"
+            d = str(base / "src")
+            cfg = {"gamma": 1.0 if solver == "rvi" else 0.875, "epsilon": 2.0 ** -40, "checkpoint_dir": d, "checkpoint_frequency": f, "max_checkpoints": m1, "enable_async_checkpointing": False}
+            if solver == "pvi":
+                cfg["period"] = 2
+            first = {"kind": "ckpt_run", "problem": SHIPPED[pi], "solver": solver, "config": cfg, "ops": [["solve", k1]]}
+            if route == "restore":
+                second = {"kind": "ckpt_restore", "solver": solver, "dir": d, "overrides": {"max_checkpoints": m2}, "ops": [["solve", k2]]}
+            else:
+                second = {"kind": "ckpt_restore", "solver": solver, "dir": d, "route": "load", "problem": SHIPPED[pi], "config": dict(cfg, max_checkpoints=m2), "ops": [["solve", k2]]}
+            key = f"restore-seq:{name}:{solver}:{pi}"
+            inp = {"same_process": [first, second]}
+            rr = core.run_worker(ctx, [first, second])
+            a, r = rr[0], rr[1]
+            if "error" in a or "error" in r or r.get("raised"):
+                out.append((key, f"same-process sequence failed: {a.get('error') or r.get('error') or r.get('raised')}: {(r.get('message') or a.get('message') or '')[:200]}", inp))
+                continue
+            # iteration counts as observed (a run that converges inside its budget stops early and makes no periodic save there)
+            it1, it2 = a["obs"][-1]["iteration"], r["obs"][-1]["iteration"]
+            if r["obs"][0]["iteration"] != it1 or not (0 < it1 <= k1) or not (it1 <= it2 <= it1 + k2):
+                out.append((key, f"same-process sequence: iteration counts {it1} -> restored {r['obs'][0]['iteration']} -> {it2} are inconsistent with solve({k1}), restore, solve({k2})", inp))
+                continue
+            _, acc1, ret1 = expected_dir(f, m1, [(0, it1, it1 < k1)])
+            _, acc2, _ = expected_dir(f, m2, [(it1, it2, it2 - it1 < k2)])
+            want = (ret1 + [x for x in acc2 if x > ret1[-1]])[-m2:]
+            if a["dir"]["steps"] != ret1:
+                out.append((key, f"frequency {f}, retention {m1}, solve({k1}): directory holds {a['dir']['steps']}, expected {ret1}", inp))
+            elif r["dir_after"]["steps"] != want:
+                out.append((key, f"second solver object on the same directory IN THE SAME PROCESS with max_checkpoints={m2} (the first had {m1}): after solve({k2}) the directory holds "
+                                 f"{r['dir_after']['steps']}, expected the {m2} most recent = {want}", inp))
     return out, n
 
 
